@@ -1057,12 +1057,16 @@ func Gen(run *vlib.Run, seed uint64, tier string) {
 		}
 		run.Extra["race_controls"] = map[string]int{"expected": expectedRaces, "reported": reportedOnControls, "reruns": retried}
 	}
+	// ---- cold start: first concurrent use in fresh processes (cold.go)
+	tc0 := time.Now()
+	genCold(run, tier)
+	tCold := time.Since(tc0).Seconds()
 	run.Extra["racer"] = map[string]any{
 		"binary":    "work/C16/racer (go build -race -tags verif ./c16/racer, CGO_ENABLED=1)",
 		"processes": racerStats.Processes, "cases": racerStats.Cases,
 		"build_s": round1(racerStats.BuildS), "worker_s_summed": round1(racerStats.RunS), "parallel_workers": 3,
 	}
-	run.Extra["stage_wall_s"] = map[string]float64{"solo": round1(tSolo), "frozen": round1(tFrozen), "solo+frozen+seq": round1(tSeq), "total": round1(time.Since(t0).Seconds())}
+	run.Extra["stage_wall_s"] = map[string]float64{"solo": round1(tSolo), "frozen": round1(tFrozen), "solo+frozen+seq": round1(tSeq), "cold": round1(tCold), "total": round1(time.Since(t0).Seconds())}
 	cells := []string{}
 	for _, cv := range infos[envNames[0]].pristine {
 		cells = append(cells, fmt.Sprintf("%d=%s", cv.Cell, cellName(cv.Cell)))
@@ -1076,6 +1080,9 @@ func round1(x float64) float64 { return float64(int(x*10+0.5)) / 10 }
 // RunCase re-executes one case line (corpus entries and replays).
 func RunCase(line string) (impl, fail, sig string, err error) {
 	line = strings.TrimPrefix(line, "!")
+	if strings.HasPrefix(line, "cold ") {
+		return runColdLine(line)
+	}
 	c, err := parseCase(line)
 	if err != nil {
 		return "", "", "", err
